@@ -1,4 +1,5 @@
 import PV.Model.SockAddr
+import PV.Model.Inet6Text
 import PV.Spec.SockAddr
 import PV.Driver.Util
 /-! Driver for the socket-address family (C17).  Protocol: see `harness/sockaddr.c`.
@@ -8,7 +9,10 @@ One answer line per op; the answer is the *model's* (`PV.SockAddr`), with the pl
 `sockaddr platform`, the harness's annotate mode).  When the spec (`PV.SockAddr.Spec`: explicit
 byte layout, byte-wise classification, the concrete glibc IPv4 text functions `ntop4`/`pton4`,
 "creation succeeds exactly for what the platform accepts") answers differently, the line is
-suffixed with ` SPECDIFF <spec answer>`.  A model-predicted out-of-bounds access prints `fault` and stops. -/
+suffixed with ` SPECDIFF <spec answer>`.  A model-predicted out-of-bounds access prints `fault` and stops.
+
+The ops `ntop6` / `ntop4` / `pton` do not involve the library: the harness answers with the real `inet_ntop` /
+`inet_pton` / `getaddrinfo`, this driver with their Lean model (`PV.Model.Inet6Text`, `ntop4`/`pton4`). -/
 namespace PV.Driver.SockAddr
 open PV.SockAddr PV.Driver PV.Generated
 
@@ -257,6 +261,31 @@ def step (_ : Unit) (toks : List String) : IO (Unit × Bool) := do
   | ["sup"] =>
     IO.println s!"flow={b01 isFlowInfoSupported} scope={b01 isScopeIdSupported} ipv6={b01 isIPv6Supported}"
     return ((), false)
+  | ["ntop6", h] =>
+    match (bytesOfHex h).bind (vecOf 16) with
+    | some a =>
+      let t := PV.SockAddr.ntop6 a
+      let back := match PV.SockAddr.pton6 t with | some x => hexOr x.toList | none => "-"
+      IO.println s!"t={hexOr t} back={back}"; return ((), false)
+    | none => bad
+  | ["ntop4", h] =>
+    match (bytesOfHex h).bind (vecOf 4) with
+    | some a =>
+      let t := ntop4 a
+      let back := match pton4 t with | some x => hexOr x.toList | none => "-"
+      IO.println s!"t={hexOr t} back={back}"; return ((), false)
+    | none => bad
+  | ["pton", sh] =>
+    match bytesOfHex sh with
+    | some s =>
+      let s := cstr s
+      let p4 := match pton4 s with | some x => hexOr x.toList | none => "-"
+      let p6 := match PV.SockAddr.pton6 s with | some x => hexOr x.toList | none => "-"
+      let gai := if s.contains 58 && !s.contains 37 then
+          (match gaiNumeric s with | some (f, b) => s!"{f}:{hexOr b}" | none => "-")
+        else "n/a"
+      IO.println s!"p4={p4} p6={p6} gai={gai}"; return ((), false)
+    | none => bad
   | ["reset"] => IO.println "ok"; return ((), false)
   | _ => bad
 
